@@ -1,5 +1,5 @@
 # configuration of ./check for property C10 (see props_config.py)
-CONFIG = {'gen': [],
+CONFIG = {'gen': ['ConstsC10'],
  'rule': 'cases = (1) FirstLevelEncode/Decode: every byte value at every one of the 16 positions (4096 names, exhaustive per position), '
          "every length 0..20 with and without scope, random names over arbitrary bytes (wildcard '*'+15 NUL, trailing spaces, suffix "
          '0x20), valid scopes (LDH labels up to 63, totals up to the 255-octet wire limit) and invalid ones; decoding of mutated / '
@@ -8,7 +8,8 @@ CONFIG = {'gen': [],
          'some packets with wrong counts / RDLength / unrepresentable names); (3) Unmarshal on packets written by an independent RFC 1002 '
          'serializer and by miekg/dns, on every prefix, byte flips, label-string pointers, changed label lengths, raised counts, trailing '
          'bytes, random bytes and the pre-repair wire form; distinct = distinct input line; non-trivial = implementation output is a '
-         'non-empty value. Half of the packet decodes go into a packet value that has already decoded a packet with one entry in each of the four sections.',
+         'non-empty value. Half of the packet decodes go into a packet value that has already decoded a packet with one entry in each of '
+         'the four sections.',
  'assumptions': ['*NetBIOSName fields of questions and records are non-nil; Unmarshal is called on a zero-valued packet',
                  'Marshal trusts the header counts and RDLength: the round-trip theorems assume counts = section sizes and RDLength = '
                  'len(RData)',
@@ -19,7 +20,12 @@ CONFIG = {'gen': [],
  'trusted': ['github.com/miekg/dns v1.0.14 is used only as a third codec in L2; no theorem depends on it'],
  'technique': 'Lean 4 proof: kernel evaluation over all 256 byte values for the nibble map, list induction over positions, labels and '
               'sections; hand model tied to the Go code by differential correspondence; RFC 1001 §14.1 / RFC 1002 §4.1-4.2 spec (on top of '
-              'the RFC 1035 grammar of Spec/DNS.lean) cross-checked against an independent Go encoder and miekg/dns on every run',
+              'the RFC 1035 grammar of Spec/DNS.lean) cross-checked against an independent Go encoder and miekg/dns on every run; '
+              'constants regenerated from the source on every run by a go/ast fact extractor (Gen/ConstsC10: '
+              'NetBIOSNameLength/EncodedNameLength/ASCII_A and each use, nibble shift and masks, pad and trim byte, label limits 63 and '
+              'wire limit 255 with its +2, LDH character ranges, NBNS header offsets, question/record fixed sizes 4 and 10 and field '
+              'offsets, byte order and write order) and proved equal to the ones the model uses by rfl/decide (19 theorems '
+              'consts_match_model_*)',
  'level_text': 'Proved in Lean for all inputs about a hand-written model of FirstLevelEncode/FirstLevelDecode/Marshal/Unmarshal: the '
                'nibble arithmetic is the RFC 1001 half-ASCII map for all 256 byte values (l1_byte_spec, l1_chars_in_range) and '
                "FirstLevelEncode is the 32-character form of the space-padded name plus '.scope' (l1_encode_spec, l1_refuses_long); "
@@ -27,7 +33,12 @@ CONFIG = {'gen': [],
                'l1_padding_insensitive); Marshal emits exactly the RFC 1002 message (marshal_eq_spec, name_wire_spec), which the '
                'independent RFC 1035/1002 reader parses to the same content (rfc1002_parses_model) and Unmarshal reads back in all four '
                'sections (packet_roundtrip); no input panics (unmarshal_never_panics, l1_decode_never_panics). The model is tied to the '
-               'code by running both on the same generated inputs on every run.',
- 'level_note': 'Trusted: Lean kernel; axioms propext, Classical.choice, Quot.sound; the hand model is tied to the Go code only by '
-               'differential testing (bounded); Go stdlib semantics as modelled. The theorems are about the repaired code (two fix patches '
-               'in fixes/C10-*).'}
+               'code by running both on the same generated inputs on every run. Constants tie: 19 theorems consts_match_model_* restate '
+               'the model functions with the numbers regenerated from the current source (NetBIOSNameLength/EncodedNameLength/ASCII_A and '
+               'each use, nibble shift and masks, pad and trim byte, label limits 63 and wire limit 255 with its +2, LDH character ranges, '
+               'NBNS header offsets, question/record fixed sizes 4 and 10 and field offsets, byte order and write order) in place of their '
+               'literals; a changed constant in the source makes the theorem named after the function fail.',
+ 'level_note': 'Trusted: Lean kernel; axioms propext, Classical.choice, Quot.sound; the hand model is tied to the Go code by differential '
+               'testing and, for the constants covered by consts_match_model_*, by regeneration from the source (control flow: '
+               'differential testing only, bounded); Go stdlib semantics as modelled. The theorems are about the repaired code (two fix '
+               'patches in fixes/C10-*).'}
